@@ -525,7 +525,13 @@ class FunctionalLeftScalarMult(Functional, OperatorLeftScalarMult):
                     sigma : positive float, optional
                         Step size parameter. Default: 1.0
                 """
-                return self.functional.proximal(sigma * self.scalar)
+                if isinstance(sigma, (list, tuple)):
+                    # One step size per component, e.g. for `SeparableSum`;
+                    # `list * scalar` would repeat the list or fail
+                    sigma = [sig * self.scalar for sig in sigma]
+                else:
+                    sigma = sigma * self.scalar
+                return self.functional.proximal(sigma)
 
             return proximal_left_scalar_mult
 
